@@ -89,6 +89,8 @@ def run(ctx):
     follower_test(ctx, prog, 'Q6')
     from rules.C18 import cli_memory_rules
     cli_memory_rules(ctx, prog, cg, DISABLE, 'Q8')
+    from rules.C18 import whole_file_read_rule
+    whole_file_read_rule(ctx, prog, cg, 'Q1')
     # ---- Q5 ------------------------------------------------------------------------------------------
     newbuf = decl_of(arg(wc, 0))
     entry = common.holder(F, fe[0])
